@@ -129,6 +129,29 @@ func runC06(c *Ctx) {
 				fail("codec B response decode of codec A bytes: got %s want %s", truncs(s2), truncs(w))
 			}
 		}
+		// codec B decoding into a packet value that was used before (the values own slices a decoder may reuse): the result
+		// must not depend on what the value held. The earlier content is a sibling of the same kind with more of everything.
+		switch p.Kind {
+		case "write", "data", "name", "attrs", "open", "setstat", "fsetstat", "mkdir":
+			if errA == nil {
+				sib := c06Sibling(p)
+				if encS, errS := sftp.VerifEncA(sib); errS == nil {
+					d3, ek3, pan3, covered := sftp.VerifDecBInto(encS[4:], encA[4:])
+					if covered {
+						s3 := canon(d3)
+						if d3 == nil {
+							s3 = "err:" + ek3
+						}
+						c.Stat("reuse_decodes")
+						if pan3 {
+							fail("codec B decoder panicked decoding into a used %s value", p.Kind)
+						} else if w := canon(p); s3 != w {
+							fail("codec B decode into a used %s value depends on its earlier content: got %s want %s", p.Kind, truncs(s3), truncs(w))
+						}
+					}
+				}
+			}
+		}
 		c.Obs(n, obs...)
 		c.Oracle(n, ok, why)
 	}
@@ -174,4 +197,35 @@ func truncs(s string) string {
 		return s[:160] + "..."
 	}
 	return s
+}
+
+// c06Sibling: a packet of the same kind whose slices are longer than p's (payload, name entries, extended attributes).
+func c06Sibling(p *sftp.VerifPacket) *sftp.VerifPacket {
+	q := *p
+	q.ID = p.ID ^ 0x5a5a5a5a
+	q.Data = append(append([]byte{}, p.Data...), bytes.Repeat([]byte{0xEE}, 37)...)
+	ext := func(a *sftp.VerifAttrs) *sftp.VerifAttrs {
+		var b sftp.VerifAttrs
+		if a != nil {
+			b = *a
+		}
+		b.Flags |= 0x80000000 | 0xf
+		b.Ext = append(append([][2]string{}, b.Ext...), [2]string{"stale-type-1", "stale-data-1"}, [2]string{"stale-type-2", "stale-data-2"})
+		return &b
+	}
+	if p.Attrs != nil || p.Kind == "attrs" || p.Kind == "open" || p.Kind == "setstat" || p.Kind == "fsetstat" || p.Kind == "mkdir" {
+		q.Attrs = ext(p.Attrs)
+		q.N2 = uint64(q.Attrs.Flags)
+	}
+	if p.Kind == "name" {
+		q.Names = nil
+		for _, e := range p.Names {
+			e.Attrs = *ext(&e.Attrs)
+			q.Names = append(q.Names, e)
+		}
+		for i := 0; i < 3; i++ {
+			q.Names = append(q.Names, sftp.VerifName{Name: "stale-name", Long: "stale-long", Attrs: *ext(nil)})
+		}
+	}
+	return &q
 }
